@@ -94,6 +94,8 @@ func traceStrings(i *ids, log []entry) []string {
 			out = append(out, fmt.Sprintf("listener OnReorg(%d)", e.Num))
 		case eEpoch:
 			out = append(out, fmt.Sprintf("SOURCE SWITCHES TO CHAIN %d", e.Epoch))
+		case eRestart:
+			out = append(out, "SYNCHRONIZER SHUT DOWN (Run returned); NEW Blockchain + Synchronizer ON THE SAME DATABASE")
 		}
 	}
 	// collapse the retry loops
@@ -175,6 +177,9 @@ func analyse(sc Scenario, out *outcome, drv *lib.Driver) *caseResult {
 		switch e.Kind {
 		case eEpoch:
 			epoch = e.Epoch
+		case eRestart:
+			curRun = nil // currReorg is not persisted: a new instance does not announce earlier reverts
+			cr.hits["shutdown:restart"]++
 		case eServed:
 			if e.Valid {
 				servedValid[e.Hash.String()] = true
@@ -268,6 +273,15 @@ func analyse(sc Scenario, out *outcome, drv *lib.Driver) *caseResult {
 		cr.hits["feed:newHead"] += len(gotN)
 		cr.hits["feed:reorg"] += len(gotG)
 	}
+	if sc.Plugin {
+		checkPlugin(out.plugin, out.log, viol, cr.hits)
+	}
+	if sc.ReadOnly {
+		cr.hits["read-only:runs"]++
+		if len(stores) > 0 || len(curRun) > 0 {
+			viol("read-only-synchroniser-changed-the-chain", "readOnlyBlockchain = true, yet blocks were stored or reverted")
+		}
+	}
 	// convergence
 	same := len(out.finalChain) == len(final)
 	for i := 0; same && i < len(final); i++ {
@@ -286,10 +300,14 @@ func analyse(sc Scenario, out *outcome, drv *lib.Driver) *caseResult {
 				break
 			}
 		}
+		if why := checkClasses(out.final, final); why != "" {
+			viol("declared-class-missing-or-different-in-state-after-sync", why)
+		}
 		if h, err := out.final.Height(); len(final) > 0 && (err != nil || h != uint64(len(final)-1)) {
 			viol("final-height-differs-from-source", fmt.Sprintf("Height()=%d,%v want %d", h, err, len(final)-1))
 		}
 	case out.hang != "" || out.panicMsg != "":
+	case sc.ReadOnly:
 	case properPrefix:
 		// the source holds a proper prefix of the node's chain: indistinguishable from a stale
 		// head, outside the property (see notes); the model must predict the same
@@ -355,6 +373,8 @@ func analyse(sc Scenario, out *outcome, drv *lib.Driver) *caseResult {
 			accChain = append(accChain, id.of(&e.Hash))
 			nst++
 			notif(nst)
+		case eRestart:
+			lines = append(lines, "restart")
 		case eReverted:
 			lines = append(lines, fmt.Sprintf("R %d %d", e.Num, id.of(&e.Hash)))
 			if len(accChain) > 0 {
@@ -385,7 +405,10 @@ func analyse(sc Scenario, out *outcome, drv *lib.Driver) *caseResult {
 				// is the only "evidence" an answer carrying another block number than the one asked for?
 				var n, h int
 				fmt.Sscanf(lines[li], "R %d %d", &n, &h)
-				if wrongNumAnswered(out.log, id, uint64(n), h) {
+				// attribute the revert to its cause: a successor block with another parent (the path of
+				// storeTask) is not a mis-numbered answer, even if one was also given
+				ev, _ := drv.Ask(fmt.Sprintf("evidence %d %d", n, h))
+				if !strings.Contains(ev, "successor=true") && wrongNumAnswered(out.log, id, uint64(n), h) {
 					viol("revert-decided-on-answer-with-wrong-block-number", fmt.Sprintf(
 						"block %d was reverted because BlockByNumber(%d) was answered with a block of another number (revertTask compares only the hashes)", n, n))
 					cr.hits["revert:on-wrong-number-answer"]++
@@ -474,6 +497,26 @@ func analyse(sc Scenario, out *outcome, drv *lib.Driver) *caseResult {
 	cr.key = fmt.Sprintf("%s/%d/%v/%d", sc.Kind, sc.Seed, sc.DstNew, sc.Procs)
 	cr.nontrivial = len(stores) > 0 || nst > 0 || len(curRun) > 0
 	return cr
+}
+
+// syncGoroutines returns the stack of a goroutine that is still inside juno's sync package (after
+// a grace period), or "".
+func syncGoroutines() string {
+	for try := 0; ; try++ {
+		buf := make([]byte, 8<<20)
+		buf = buf[:runtime.Stack(buf, true)]
+		found := ""
+		for _, g := range strings.Split(string(buf), "\n\n") {
+			if strings.Contains(g, "github.com/NethermindEth/juno/sync.") || strings.Contains(g, "juno/sync/preconfirmed.") {
+				found = g
+				break
+			}
+		}
+		if found == "" || try >= 20 {
+			return found
+		}
+		time.Sleep(10 * time.Millisecond)
+	}
 }
 
 // staleSuccessor: the reverted block x was first served in some epoch E; a valid block numbered
@@ -622,6 +665,7 @@ func dynamicScenario(r *lib.RNG, i int) Scenario {
 		t.AtReq = reqBase
 		sc.Triggers = append(sc.Triggers, t)
 	}
+	sc.ViaFeeder = i%3 == 1
 	switch r.Intn(4) {
 	case 0:
 		sc.Faults = Faults{}
@@ -629,6 +673,25 @@ func dynamicScenario(r *lib.RNG, i int) Scenario {
 		sc.Faults = Faults{ErrPct: 20, DelayPct: 30, MaxDelayUs: 500, Budget: 3}
 	default:
 		sc.Faults = Faults{ErrPct: 15, DelayPct: 25, MaxDelayUs: 800, CorruptPct: 15, WrongNumPct: 8, StalePct: 30, Budget: 3}
+	}
+	sc.Plugin = i%4 == 1
+	sc.Poll = i%5 == 3
+	if i%40 == 7 {
+		sc.ReadOnly = true
+	}
+	if i%4 == 2 {
+		// shut down and restart at arbitrary moments (request counts)
+		at := uint64(0)
+		for k := r.Range(1, 3); k > 0; k-- {
+			at += uint64(r.Range(3, 150))
+			sc.Shutdowns = append(sc.Shutdowns, at)
+		}
+	}
+	if sc.ViaFeeder {
+		sc.Faults.ClassErrPct = 30
+		if sc.Faults.Budget == 0 {
+			sc.Faults.Budget = 2
+		}
 	}
 	return sc
 }
@@ -737,6 +800,14 @@ func main() {
 		}
 		close(work)
 		wg.Wait()
+		// every Synchronizer of this group has been cancelled and its Run has returned: no goroutine
+		// may still be inside the sync package
+		if leak := syncGoroutines(); leak != "" {
+			res.Violate(lib.Violation{Sig: "goroutine-of-sync-package-alive-after-run-returned",
+				What: "after all Run calls returned a goroutine is still executing sync package code", Replay: map[string]any{"stack": leak}})
+		} else {
+			res.Hit("shutdown:no-sync-goroutine-left(check)")
+		}
 	}
 	runtime.GOMAXPROCS(defProcs)
 	// smallest replay first per signature
@@ -772,6 +843,14 @@ func main() {
 		res.Hit("kind:" + cr.sc.Kind)
 		res.Hit(fmt.Sprintf("gomaxprocs:%d", cr.sc.Procs))
 		res.Hit(fmt.Sprintf("dst-new-state:%v", cr.sc.DstNew))
+		if cr.sc.Poll {
+			res.Hit("preconfirmed-polling:on")
+		}
+		if cr.sc.ViaFeeder {
+			res.Hit("data-source:sync.NewFeederGatewayDataSource")
+		} else {
+			res.Hit("data-source:scripted-DataSource")
+		}
 		for _, e := range cr.sc.Epochs[1:] {
 			switch {
 			case e.Depth == 0:
